@@ -156,6 +156,25 @@ CHECKS["C02"] = dict(
     note="Clean rejections (the same ValueError / NotImplementedError on both paths) are accepted; any other exception on either path is reported.",
     ref="7/C02")
 
+CHECKS["C01"] = dict(
+    technique="property-based testing (Hypothesis): shape / row-order / unseen-vocabulary metamorphic relations on an independent transform set for 22 estimator families, plus the C03 reference on transform inputs for the co-occurrence family",
+    text="For every row-producing family a model is fitted on X and applied to an independently generated X' over a superset alphabet "
+         "(unseen tokens, labels, characters, phrases, empty items, different lengths): no exception may escape, the result has one row "
+         "per item (or per fitted vocabulary entry) and exactly the fitted width, row i equals the transform of item i alone, deleting "
+         "unseen tokens from X' does not change the result, and co-occurrence cells of transform(X') equal the reference count on X' "
+         "with the fitted vocabulary. Exploration.",
+    note="Per-column meaning of Ngram / LZ / BPE / Histogram / EdgeList transforms on unseen inputs is decided by C06, C16, C09, C20 "
+         "(their references are evaluated on transform inputs as well); corpora with nothing to learn are labelled degenerate and skipped.",
+    ref="7/C01")
+CHECKS["C12"] = dict(
+    technique="property-based testing (Hypothesis), metamorphic: batch split, permutation and duplication plans over fitted row-wise estimators; zero-row contamination probe; shards under NUMBA_NUM_THREADS 1/4/16",
+    text="A fitted row-wise estimator (21 families incl. Wasserstein methods / input formats with tiny memory_size and Sinkhorn chunk "
+         "sizes 1, 3, 32) and a generated plan over 2-12 items: transform(A + B) must equal vstack(transform(A), transform(B)), "
+         "transform(perm(X)) must equal perm(transform(X)), duplicated items must give identical rows, and an all-zero distribution "
+         "inside a batch must not change the other rows. Exploration; thread-pool sizes are varied per shard.",
+    note="Sinkhorn-based outputs use rtol 1e-4 (shared stopping test per chunk). NaN outputs are compared position-wise as equal here.",
+    ref="7/C12")
+
 PENDING_REASON = "check not built yet in this revision of /verif (planned, see DESIGN.md section 7)"
 
 
